@@ -265,6 +265,14 @@ class Width:
             return bits_of(nd["v"])
         if k == "MemberExpr" and nd.get("m") in self.field_bits:
             return self.field_bits[nd["m"]]
+        if k == "DeclRefExpr" and nd.get("d") is not None:
+            # a local that only names a value (never reassigned, its inputs unchanged while it lives) is as wide as that value
+            vv = ("var", nd.get("n"), nd.get("d"))
+            dn = fn.local_init_node_at(vv, i) if fn.local_value_at(vv, i) is not None else None
+            if dn is not None:
+                inner = self.needed(dn)
+                iw = nd.get("iw")
+                return min(inner, iw) if iw is not None else inner
         if k in WRAPPERS:
             ks = fn.kids(i)
             return self.needed(ks[0]) if ks else nd.get("iw", 64)
